@@ -72,6 +72,10 @@ DEFECTS = [
     ('bad-integer', ['timeout = abc'], ('VALIDATION_ERROR', 'SYNTAX_ERROR')),
     ('bad-integer-float', ['timeout = 1.5'], ('VALIDATION_ERROR', 'SYNTAX_ERROR')),
     ('bad-regex', ["file g.txt = -contents-of -rel-home data.txt -transformed-by replace '(' x"], ('VALIDATION_ERROR', 'SYNTAX_ERROR')),
+    ('bad-regex-replace-at', ["file g.txt = -contents-of -rel-home data.txt -transformed-by replace -at line-num == 1 '(' x"], ('VALIDATION_ERROR', 'SYNTAX_ERROR')),
+    ('bad-regex-replace-at-preserve', ["file g.txt = -contents-of -rel-home data.txt -transformed-by replace -at contents is-empty -preserve-new-lines 'b[' x"],
+     ('VALIDATION_ERROR', 'SYNTAX_ERROR')),
+    ('bad-regex-in-at-selector', ["file g.txt = -contents-of -rel-home data.txt -transformed-by replace -at contents matches '*' a x"], ('VALIDATION_ERROR', 'SYNTAX_ERROR')),
     ('bad-regex-matcher', ["file g.txt = -contents-of -rel-home data.txt -transformed-by filter contents matches '*'"],
      ('VALIDATION_ERROR', 'SYNTAX_ERROR')),
 ]
@@ -102,6 +106,11 @@ ACT_DEFECTS = [
     ('act-defined-later', ['% mark @[LATER]@'], ('VALIDATION_ERROR',)),
     ('act-missing-program', ['no-such-program-in-act-home'], ('VALIDATION_ERROR',)),
     # defects in the stdin / transformation parts of the action to check (validated like the command itself)
+    # the file-interpreter actor (configured by a line the defect adds to [conf]): defects in the ARGUMENTS that follow the source file
+    ('act-file-actor-undefined-symbol-in-argument', ['in-act-home.src a @[UNDEFINED]@'], ('VALIDATION_ERROR',), ['actor = file % interp']),
+    ('act-file-actor-defined-later-in-argument', ['in-act-home.src @[LATER]@ b'], ('VALIDATION_ERROR',), ['actor = file % interp']),
+    ('act-file-actor-missing-file-argument', ['in-act-home.src -existing-file -rel-home no-such-file'], ('VALIDATION_ERROR',), ['actor = file % interp']),
+    ('act-file-actor-missing-source-file', ['no-such.src a'], ('VALIDATION_ERROR',), ['actor = file % interp']),
     ('act-stdin-missing-home-file', ['% mark a', '-stdin -contents-of -rel-home no-such-file'], ('VALIDATION_ERROR',)),
     ('act-transformer-bad-regex', ['% mark a', "-transformed-by replace '(' x"], ('VALIDATION_ERROR', 'SYNTAX_ERROR')),
     ('act-transformer-bad-integer', ['% mark a', '-transformed-by filter -line-nums notAnInt'], ('VALIDATION_ERROR', 'SYNTAX_ERROR')),
@@ -201,6 +210,8 @@ def build_text(base, order, phase, idx, defect):
         lines = ALL_DEFECTS[defect][1]
         if phase == 'act':
             blocks['act'] = list(lines)
+            if len(ALL_DEFECTS[defect]) > 3:
+                blocks['conf'] = list(blocks['conf']) + list(ALL_DEFECTS[defect][3])
         else:
             blocks[phase][idx:idx] = lines
     out = []
@@ -222,6 +233,7 @@ def run(case) -> Result:
     seam.reset()
     w.write('data.txt', 'hello\n')
     w.write('hd/file-in-home.txt', 'home\n')
+    w.write('in-act-home.src', 'source\n')
     text = build_text(base, order, phase, idx, defect)
     p = w.write('c.case', text)
     snap = world.snapshot_tree(w.home)
